@@ -276,11 +276,10 @@ func checkSigToken(r *Report, m *spModel, sr *sigRoles) {
 			if !ok {
 				continue
 			}
-			scf := c.Call.StaticCallee()
-			if scf == nil || !sr.Unmarshal[scf] {
+			el, _, isU := unmarshalSiteOf(p, sr, c)
+			if !isU || el == nil {
 				continue
 			}
-			el := c.Call.Args[0]
 			cons := fmt.Sprintf("%s: unmarshal of %s gated by its signature", p.FnName(fn), fc.AP(el))
 			ok2 := false
 			why := "no call of the signature validator on this element dominates the unmarshal"
@@ -443,10 +442,10 @@ func checkSameEl(r *Report, m *spModel, sr *sigRoles) {
 						r.Check(okD, rule, cons, p.InstrPos(in), src, "the element that is decrypted comes from "+src+": an etree path query ignores namespaces and document position, so content outside the verified element can become part of the returned assertion")
 					}
 				}
-				if scf == nil || !sr.Unmarshal[scf] || sr.Unmarshal[fn] {
+				el, _, isU := unmarshalSiteOf(p, sr, c)
+				if !isU || el == nil || sr.Unmarshal[fn] {
 					continue
 				}
-				el := c.Call.Args[0]
 				if !typeIs(el.Type(), "github.com/beevik/etree", "Element") {
 					continue
 				}
@@ -1588,4 +1587,47 @@ func checkConfigReadOnly(r *Report, p *Prog, rule string, pkg string, typeNames 
 		cons := fmt.Sprintf("%s.%s: configuration is read, never written, by the library", pkg, tn)
 		r.Check(first[tn] == "", rule, cons, "-", "no library store into a field of the type outside its constructors", "the library stores into "+first[tn]+": the object remembers something derived from an earlier state of its own configuration (key, certificate, metadata), which keeps being used after the application changes them")
 	}
+}
+
+// unmarshalSiteOf: c is a step "unmarshal this element into that object": a call of an unmarshal helper of the module
+// (func(el, v) forwarding to xml.Unmarshal), or xml.Unmarshal itself applied to the bytes a module serialiser made of an
+// element (the helper written out in place: buf, err := elementToBytes(el); xml.Unmarshal(buf, v)). el is nil when the
+// bytes do not come from an element.
+func unmarshalSiteOf(p *Prog, sr *sigRoles, c *ssa.Call) (el, target ssa.Value, ok bool) {
+	scf := c.Call.StaticCallee()
+	if scf == nil {
+		return nil, nil, false
+	}
+	if sr.Unmarshal[scf] {
+		for _, a := range c.Call.Args {
+			switch {
+			case typeIs(a.Type(), "github.com/beevik/etree", "Element") && el == nil:
+				el = a
+			case types.IsInterface(a.Type()) && target == nil:
+				target = a
+			}
+		}
+		if el == nil && len(c.Call.Args) > 0 {
+			el = c.Call.Args[0]
+		}
+		return el, target, true
+	}
+	if scf.String() != "encoding/xml.Unmarshal" || sr.Unmarshal[c.Parent()] || !p.InLibrary(c.Parent()) {
+		return nil, nil, false
+	}
+	target = c.Call.Args[1]
+	buf := Resolve(c.Call.Args[0])
+	if ex, isEx := buf.(*ssa.Extract); isEx {
+		buf = ex.Tuple
+	}
+	if bc, isCall := buf.(*ssa.Call); isCall {
+		if h := bc.Call.StaticCallee(); h != nil && p.InLibrary(h) {
+			for _, a := range bc.Call.Args {
+				if typeIs(a.Type(), "github.com/beevik/etree", "Element") {
+					return a, target, true
+				}
+			}
+		}
+	}
+	return nil, target, true
 }
